@@ -24,6 +24,7 @@ from twisted.python.failure import Failure  # noqa: E402
 import txtorcon.endpoints as endpoints  # noqa: E402
 from txtorcon.endpoints import TCPHiddenServiceEndpoint  # noqa: E402
 from txtorcon.onion import AuthBasic, AuthStealth  # noqa: E402
+from txtorcon.torcontrolprotocol import TorProtocolError, TorDisconnectError  # noqa: E402
 
 PROPERTY = 'C17'
 ASSUMPTIONS = [
@@ -34,11 +35,34 @@ ASSUMPTIONS = [
     'the failure cases cover ephemeral services (ADD_ONION); filesystem services are covered by the option table only',
 ]
 BOUNDS = {'quick': {'options': 'ephemeral {None,T,F} x hidden_service_dir x auth {none,basic,stealth} x stealth_auth x private_key x single_hop x version',
-                    'fault_steps': 9, 'descriptor_wait': 'with / without a second service publishing to another directory meanwhile', 'public_port': 'symbolic 1..65535'},
+                    'fault_steps': 9, 'auth': 'none; basic with one client (own token / token from Tor) and two clients', 'descriptor_wait': 'with / without a second service publishing to another directory meanwhile', 'public_port': 'symbolic 1..65535'},
           'thorough': {}}
 OUTSIDE = ['real sockets / file systems', 'filesystem-service listen() (needs hostname files on disk)', 'TCPHiddenServiceEndpointParser private-key files']
 
 SID = 'abcdefghijklmnop'
+_RSA = []
+
+
+def _rsa():
+    """a throw-away RSA-1024 key (generated once, natively) and its permanent id computed independently of txtorcon:
+    base32 of the first 10 bytes of SHA1 over the PKCS#1 DER public key"""
+    if not _RSA:
+        import base64
+        import hashlib
+        from cryptography.hazmat.primitives.asymmetric import rsa
+        from cryptography.hazmat.primitives import serialization
+        from cryptography.hazmat.backends import default_backend
+        key = rsa.generate_private_key(public_exponent=65537, key_size=1024, backend=default_backend())
+        pem = key.private_bytes(serialization.Encoding.PEM, serialization.PrivateFormat.TraditionalOpenSSL, serialization.NoEncryption())
+        blob = ''.join(pem.decode('ascii').strip().split('\n')[1:-1])
+        der = key.public_key().public_bytes(serialization.Encoding.DER, serialization.PublicFormat.PKCS1)
+        permid = base64.b32encode(hashlib.sha1(der).digest()[:10]).decode('ascii').lower()
+        _RSA.append((blob, permid))
+    return _RSA[0]
+
+
+# use_auth: 0 none; 1..3 basic authentication with these client lists (a tuple carries the client's token, a bare name gets one from Tor)
+AUTH_CLIENTS = [None, [('alice', 'dG9rZW4x')], ['bob'], [('alice', 'dG9rZW4x'), 'bob']]
 LOCAL_PORT = 43210
 
 
@@ -97,11 +121,21 @@ def _listen(version, use_auth, single_hop, with_key, public_port, fault, with_lo
         return 'harness: bootstrap failed %r' % (out.exc(),)
     reactor = Reactor(fail_bind=(fault == 3))
     held = []
+    sid = SID
+    clients = AUTH_CLIENTS[use_auth]
+    if use_auth:
+        blob, sid = _rsa()
 
     def handler(ln):
         if ln.startswith('ADD_ONION'):
             if fault == 4:
                 return ['512 Invalid VIRTPORT/TARGET']
+            if use_auth:
+                rep = ['250-ServiceID=' + sid]
+                if ' NEW:' in ln:
+                    rep.append('250-PrivateKey=RSA1024:' + blob)
+                rep += ['250-ClientAuth=%s:dG9yLXRva2Vu' % c for c in clients if not isinstance(c, tuple)]
+                return rep + ['250 OK']
             return ['250-ServiceID=' + SID, '250-PrivateKey=ED25519-V3:dG9y', '250 OK']
         return ['250 OK']
     tor.onion_handler = handler
@@ -114,20 +148,24 @@ def _listen(version, use_auth, single_hop, with_key, public_port, fault, with_lo
         orig_answer(ln)
     tor.answer = answer
 
+    injected = RuntimeError('no configuration')
     if fault == 1:
-        config = defer.fail(RuntimeError('no configuration'))
+        config = defer.fail(injected)
     elif fault == 2:
         config = object()
     else:
         config = cfg
     pkey = ('ED25519-V3:c2VjcmV0' if version == 3 else 'RSA1024:c2VjcmV0') if with_key else None
+    if use_auth and with_key:
+        pkey = 'RSA1024:' + blob
     if fault == 7:
         pkey = pkey.replace(':c2Vj', ':c2Vj\n')       # a key blob with a line break: refused when the command is built, after the bind
     if fault == 8:
         pkey = 'RSA1024:c2VjcmV0'                      # (version 3) a key of the other kind: likewise
     try:
         ep = TCPHiddenServiceEndpoint(reactor, config, public_port, ephemeral=True, private_key=pkey,
-                                      version=version, single_hop=single_hop, auth=None, local_port=8080 if with_local_port else None)
+                                      version=version, single_hop=single_hop, auth=AuthBasic(list(clients)) if use_auth else None,
+                                      local_port=8080 if with_local_port else None)
         o = fakes.Outcome(ep.listen(Factory()))
         tor.pump()
         if fault == 6:
@@ -149,10 +187,16 @@ def _listen(version, use_auth, single_hop, with_key, public_port, fault, with_lo
             d = parse_add_onion(adds[0])
             if d is None or d['ports'] != ['%d,127.0.0.1:%d' % (public_port, reactor.ports[-1].port)]:
                 return R('tor-not-asked-to-forward-the-public-port-to-the-local-listener', '%r', adds[0])
+            if use_auth:
+                want_c = ['%s:%s' % c if isinstance(c, tuple) else c for c in clients]
+                if d['clients'] != want_c or 'BasicAuth' not in (d['flags'] or ()):
+                    return R('ADD_ONION-does-not-carry-the-requested-authentication', '%r', adds[0])
+            elif d['clients'] or 'BasicAuth' in (d['flags'] or ()):
+                return R('ADD_ONION-carries-authentication-nobody-asked-for', '%r', adds[0])
             if o.fired:
                 return R('listen-fired-before-the-descriptor-wait-was-over')
             hsdir = '$' + 'A' * 40 + '~d'
-            p.lineReceived(('650 HS_DESC UPLOAD %s UNKNOWN %s x' % (SID, hsdir)).encode('ascii'))
+            p.lineReceived(('650 HS_DESC UPLOAD %s UNKNOWN %s x' % (sid, hsdir)).encode('ascii'))
             if o.fired:
                 return R('listen-fired-before-the-descriptor-wait-was-over')
             if foreign:
@@ -164,17 +208,26 @@ def _listen(version, use_auth, single_hop, with_key, public_port, fault, with_lo
                 if o.fired:
                     return R('listen-fired-on-another-services-upload', 'ok=%d err=%d', o.ok, o.err)
             if fault == 0:
-                p.lineReceived(('650 HS_DESC UPLOADED %s UNKNOWN %s' % (SID, hsdir)).encode('ascii'))
+                p.lineReceived(('650 HS_DESC UPLOADED %s UNKNOWN %s' % (sid, hsdir)).encode('ascii'))
             else:
-                p.lineReceived(('650 HS_DESC FAILED %s UNKNOWN %s x REASON=UPLOAD_REJECTED' % (SID, hsdir)).encode('ascii'))
+                p.lineReceived(('650 HS_DESC FAILED %s UNKNOWN %s x REASON=UPLOAD_REJECTED' % (sid, hsdir)).encode('ascii'))
             tor.pump()
         if fault == 0:
             if o.ok != 1:
                 return R('listen-did-not-succeed', 'ok=%d err=%d %r', o.ok, o.err, o.exc())
             port = o.value
             host = port.getHost()
-            if host.onion_uri != SID + '.onion' or host.onion_port != public_port:
-                return R('address-does-not-report-tor-hostname-and-public-port', '%r %r', host.onion_uri, host.onion_port)
+            if host.onion_uri != sid + '.onion' or host.onion_port != public_port:
+                return R('address-does-not-report-tor-hostname-and-public-port', '%r %r (Tor assigned %s)', host.onion_uri, host.onion_port, sid)
+            if use_auth:
+                svc = port.onion_service
+                want_names = sorted(c[0] if isinstance(c, tuple) else c for c in clients)
+                if sorted(svc.client_names()) != want_names:
+                    return R('authenticated-service-lists-wrong-clients', '%r want %r', sorted(svc.client_names()), want_names)
+                for c in clients:
+                    nm, tok = (c if isinstance(c, tuple) else (c, 'dG9yLXRva2Vu'))
+                    if svc.get_client(nm).auth_token != tok:
+                        return R('client-token-wrong', '%s: %r want %r', nm, svc.get_client(nm).auth_token, tok)
             if reactor.ports[0].stopped:
                 return R('local-listener-closed-on-success')
             port.stopListening()
@@ -183,6 +236,16 @@ def _listen(version, use_auth, single_hop, with_key, public_port, fault, with_lo
         else:
             if o.fired != 1 or o.err != 1:
                 return R('listen-did-not-fail-once', 'fault %d: ok=%d err=%d', fault, o.ok, o.err)
+            e = o.exc()
+            same = {1: e is injected,
+                    2: isinstance(e, (ValueError, TypeError)),
+                    3: isinstance(e, error.CannotListenError),
+                    4: isinstance(e, TorProtocolError) and e.code == 512,
+                    5: isinstance(e, RuntimeError) and 'upload' in str(e).lower(),
+                    6: isinstance(e, TorDisconnectError),
+                    7: isinstance(e, ValueError), 8: isinstance(e, ValueError)}[fault]
+            if not same:
+                return R('listen-failed-with-another-error-than-the-one-that-occurred', 'fault %d: %r', fault, e)
             open_ports = [fp for fp in reactor.ports if not fp.stopped]
             if open_ports:
                 return R('local-listener-left-open-after-failed-listen', 'fault %d: port %d still listening', fault, open_ports[0].port)
@@ -206,7 +269,8 @@ def _listen(version, use_auth, single_hop, with_key, public_port, fault, with_lo
 
 
 @cond(quick=dict(parts=[{'fault': f} for f in range(9)], budget=100))
-def c17_listen(fault: int, version: int, single_hop: bool, with_key: bool, public_port: int, with_local_port: bool, retry: bool, foreign: bool) -> str:
+def c17_listen(fault: int, version: int, single_hop: bool, with_key: bool, public_port: int, with_local_port: bool, retry: bool, foreign: bool,
+               use_auth: int) -> str:
     """ephemeral endpoint, failure injected at step `fault`; version / single-hop / key / public port / caller-supplied
     local_port / a retry of listen() after the failure chosen by the solver"""
     version = api.pick_from(version, (2, 3))
@@ -219,8 +283,13 @@ def c17_listen(fault: int, version: int, single_hop: bool, with_key: bool, publi
         assume(with_key)
     if fault == 8:
         assume(with_key and version == 3)
+    use_auth = api.pick(use_auth, 0, 3)
+    if use_auth:
+        # basic authentication: version 2 services (the permanent id comes from an RSA key); tried on the success path and with every
+        # failure that does not depend on the key text
+        assume(version == 2 and fault not in (7, 8) and not single_hop and not with_local_port and not retry)
     with api.no_tracing():
-        return _listen(version, False, True if single_hop else False, True if with_key else False, public_port, fault,
+        return _listen(version, use_auth, True if single_hop else False, True if with_key else False, public_port, fault,
                        True if with_local_port else False, True if retry else False, True if foreign else False)
 
 
